@@ -23,7 +23,10 @@ class Src:
         for t in toks:
             if t.type in O.SIG_TOKS:
                 s = self.off(t.start[0] - 1, t.start[1])
-                e = self.off(t.end[0] - 1, t.end[1])
+                ecol = t.end[1]
+                if t.end[0] != t.start[0] and '\n' in t.string:  # CPython 3.12 reports the end column of a token that spans lines in bytes
+                    ecol = len(t.string.rsplit('\n', 1)[1])
+                e = self.off(t.end[0] - 1, ecol)
                 if t.type == tokenize.COMMENT:
                     self.comments.append((s, e, t.string))
                 else:
